@@ -6,7 +6,7 @@
    (coq/Wire/Codec.v).  That Rust's derived Serialize/Deserialize impls agree with [encode]/[decode]
    on the traced schema is the correspondence part of the check (engines/wire_eng.py). *)
 From Coq Require Import String List ZArith NArith Bool.
-From Crux Require Import Wire.Codec Wire.CodecProofs Wire.Cases Wire.CasesProofs.
+From Crux Require Import Wire.Codec Wire.CodecProofs Wire.CodecFlat Wire.Cases Wire.CasesProofs.
 From Crux Require Import Gen.Registry_kvapp Gen.Registry_zoo Gen.Registry_malapp Gen.Registry_protocol.
 Import ListNotations.
 Local Open Scope string_scope.
@@ -33,6 +33,17 @@ Proof. exact encode_injective. Qed.
 Theorem C10_prefix_free : forall reg f v1 v2 rest,
   has_type reg f v1 -> has_type reg f v2 -> encode reg f v1 = encode reg f v2 ++ rest -> v1 = v2 /\ rest = [].
 Proof. exact decode_prefix_free. Qed.
+
+(* A Registry is a flat map from names to containers; the model reads a name in the REST of the
+   dependency-ordered list.  For a well-formed registry the two readings coincide: the codec of a name
+   is the codec of the container registered under it with every inner name read globally again -
+   pointwise equal typing, encoding and decoding. *)
+Theorem C10_flat_resolution : forall reg, wf_registry reg = true -> forall n c, lookup reg n = Some c ->
+  codec_eq (rcodec reg n) (ccodec (rcodec reg) c).
+Proof. exact flat_resolution. Qed.
+
+Theorem C10_unknown_name_empty : forall reg n, lookup reg n = None -> forall v, has_type_b reg (FTypeName n) v = false.
+Proof. exact unknown_name_empty. Qed.
 
 (* The regenerated registries are closed, acyclic (dependency-ordered, no name defined twice) and
    their enums are numbered 0,1,2,... : proofs about finite regenerated objects, redone on every run. *)
